@@ -130,15 +130,111 @@ def render_full(spec, toplist):
     return build(spec).render()
 
 
+# ----------------------------------------------------- ways of getting the node in
+def insert_later(root_spec, path, pos, how):
+    """build the metadata-free tree, then put ONE node into child list `path` at `pos` by `how`."""
+    from htmltools import HTMLDependency, MetadataNode, Tag, TagList
+    from ..spec import Tagif
+    x = build(root_spec)
+    t = x
+    for i in path:
+        t = t.children[i]
+    dep = HTMLDependency("late", "1.0", script={"src": "l.js"})
+    if how == "insert":
+        t.insert(pos, dep)
+    elif how == "insert-list":
+        t.insert(pos, [MetadataNode(), [dep]])
+    elif how == "slice-assign":
+        t.children[pos:pos] = [dep]
+    elif how == "append":
+        t.append(MetadataNode(), dep)            # always at the end
+    elif how == "extend":
+        t.children.extend([dep])
+    elif how == "iadd":
+        t.children += [dep, MetadataNode()]
+    elif how == "expansion-dep":
+        t.children[pos:pos] = [Tagif(["D", "late", "1.0", {"script": {"src": "l.js"}}])]
+    elif how == "expansion-list":
+        t.children[pos:pos] = [Tagif(["L", [["M"], ["D", "late", "1.0", {}], ["M"]]])]
+    elif how == "expansion-empty":
+        t.children[pos:pos] = [Tagif(["L", []])]
+    return x
+
+
+HOWS = ["insert", "insert-list", "slice-assign", "append", "extend", "iadd", "expansion-dep", "expansion-list",
+        "expansion-empty"]
+
+
+def fn_later(case):
+    """every single gap x every way of adding the node after construction (or through an expansion)."""
+    viols = []
+    root = case
+    base = build(root).render()
+    base_str = build(root).get_html_string()
+    n = 0
+    for (path, pos) in gaps(root):
+        for how in HOWS:
+            x = insert_later(root, path, pos, how)
+            n += 1
+            r = x.render()
+            if r["html"] != base["html"]:
+                viols.append((f"metadata-visible:{how}", f"a metadata node added by {how} at {list(path)}:{pos} changed render()['html']",
+                              {"with": r["html"], "without": base["html"]}))
+                return (True, None, viols, n)
+            if how != "expansion-empty" and [d.name for d in r["dependencies"]] != ["late"]:
+                viols.append((f"dependency-list:{how}", "the added dependency is not reported", {}))
+                return (True, None, viols, n)
+            if not how.startswith("expansion"):
+                s = x.get_html_string()
+                if s != base_str:
+                    viols.append((f"metadata-visible:{how}:get_html_string", f"node added by {how} changed the markup",
+                                  {"with": s, "without": base_str}))
+                    return (True, None, viols, n)
+    return (True, n, viols, 2 * n + 2)
+
+
+DOC_TREES = [
+    E("html", True, [E("head", True, [E("meta", True, [], [["charset", "utf-8"]]), E("title", True, [T("t")])]),
+                     E("body", True, [T("b"), E("p", True, [T("x")])])]),
+    E("html", True, [E("head", True, []), E("body", True, [E("br", False, [])])]),
+    E("html", True, [E("body", True, [])]),
+    E("body", True, [E("span", False, [T("i")]), T("t")]),
+    E("div", True, [T("only")]),
+    E("head", True, [E("title", True, [T("t")])]),
+]
+
+
+def fn_document(root):
+    """plain MetadataNode objects never change a rendered DOCUMENT either."""
+    from htmltools import HTMLDocument
+    viols = []
+    base = HTMLDocument(build(root)).render()["html"]
+    n = 0
+    g = gaps(root)
+    for k in (1, 2):
+        for chosen in itertools.combinations(g, k):
+            spec2 = insert_at(root, set(chosen), ["M"], [0])
+            n += 1
+            out = HTMLDocument(build(spec2)).render()["html"]
+            if out != base:
+                viols.append(("metadata-visible:document", f"MetadataNode at {sorted(chosen)} changed the rendered document",
+                              {"with": out, "without": base}))
+                return (True, None, viols, n)
+    return (True, n, viols, n + 1)
+
+
 def plan(tier):
     out = []
     if tier == "quick":
         t1 = trees(Const(LEAVES), KINDS, 1, 3)
         out.append(dict(kind="space", name="wide-d1w3", space=only_elements(t1), fn=make_fn(2), execs=60,
                         note="depth<=1 fan-out<=3 full alphabet, all gap subsets of size<=2"))
-        t2 = trees(Const([T("a"), R("<u>r</u>")]), [B, I, Vi], 2, 2)
+        t2 = trees(Const([T("a"), R("<u>r</u>")]), [B, I], 2, 2)
         out.append(dict(kind="space", name="square-d2w2-reduced", space=only_elements(t2), fn=make_fn(1), execs=20,
-                        note="depth<=2 fan-out<=2 over {div,span,br}x{text,_repr_html_}, every single gap"))
+                        note="depth<=2 fan-out<=2 over {div,span}x{text,_repr_html_}, every single gap"))
+        t2v = trees(Const([T("a")]), [B, I, Vi, Vb], 2, [2, 1])
+        out.append(dict(kind="space", name="d2-with-void", space=only_elements(t2v), fn=make_fn(1), execs=20,
+                        note="depth<=2 fan-out (2,1) over {div,span,br,hr}x{text}, every single gap"))
         t3 = trees(Const([T("a")]), [B, I], 2, 2)
         out.append(dict(kind="space", name="square-d2w2-pairs", space=only_elements(t3), fn=make_fn(2), execs=60,
                         note="depth<=2 fan-out<=2 over {div,span}x{text}, gap subsets of size<=2"))
@@ -161,4 +257,10 @@ def plan(tier):
         t0 = trees(Const(LEAVES[:3]), KINDS, 1, 1)
         out.append(dict(kind="space", name="toplist", space=Seq(t0, 0, 3), fn=make_fn(3, True), execs=60,
                         note="top-level lists of <=3 items, gap subsets of size<=3"))
+    tl = trees(Const(LEAVES), KINDS, 1, 2 if tier == "quick" else 3)
+    out.append(dict(kind="space", name="added-after-construction", space=only_elements(tl), fn=fn_later,
+                    note=f"depth<=1 fan-out<=2 (quick) / 3: every single gap x {len(HOWS)} ways of adding the node later "
+                         "(insert, slice assignment, append, extend, +=, tagify() expansion to a dependency / list / nothing)"))
+    out.append(dict(kind="space", name="documents", space=Const(DOC_TREES), fn=fn_document,
+                    note="HTMLDocument over html/head/body shaped trees: every 1- and 2-subset of gaps filled with MetadataNode"))
     return out
